@@ -22,7 +22,7 @@ LEVEL_TEXT = ("Props/C12.v: 10 theorems universally quantified over reduced phas
 LEVEL_NOTE = ("Trusted: Coq kernel + vm_compute, extraction, driver.ml, harness, numpy as executor. Axioms: stdlib real-number axioms + "
               "Classical_Prop.classic for theorems over R/C (layout and parity theorems are axiom-free).")
 RULE = ("reduced-phase vectors of length 1..60 (quick: 1..12, 20, 33, 60), both parities, entries generic / multiples of pi/8 / tiny / "
-        "large; update histories of length 0..20 (a third with vectors that grow and shrink) with the object used (response + Jacobian) between updates in half of the cases; "
+        "large; update histories of length 0..20 passed as ndarray / list / tuple (a third with vectors that grow and shrink) with the object used (response + Jacobian) between updates in half of the cases; "
         "sample points incl. -1, 0, 1; distinct by JSON; non-trivial = at least 2 reduced phases")
 TRUSTED = ["Coq 8.16.1 kernel incl. vm_compute", "extraction (ExtrOcamlBasic, ExtrOcamlZBigInt) + driver.ml + zarith, cross-checked in Coq on a slice",
            "harness (impl_runner.py, impl_handlers4.py)", "numpy as executor of the implementation"]
@@ -65,7 +65,16 @@ def run(ctx):
                         init = [float(rng.choice([0, 0, 1, -1, 2])) for _ in range(k)]
                     cases.append({"fn": "symqsp", "parity": parity, "initial": [hexf(x) for x in init], "int_init": int_init,
                                   "history": [[hexf(x) for x in h] for h in hist], "samples": [hexf(x) for x in samples],
-                                  "touch_between": rng.random() < 0.5, "timeout": 600})
+                                  "touch_between": rng.random() < 0.5, "timeout": 600,
+                                  "hist_container": rng.choice(["array", "array", "list", "tuple"])})
+        # directed: every (parity, length 1..3) with list and tuple updates (a one-element list times 2 is a repetition, not a doubling)
+        for k in (1, 2, 3):
+            for parity in (0, 1):
+                for cont in ("list", "tuple"):
+                    cases.append({"fn": "symqsp", "parity": parity, "initial": [hexf(x) for x in gen_red(rng, k)], "int_init": False,
+                                  "history": [[hexf(x) for x in gen_red(rng, k)] for _ in range(2)],
+                                  "samples": [hexf(x) for x in (-1.0, 0.0, 1.0, rng.uniform(-1, 1))],
+                                  "touch_between": cont == "list", "timeout": 600, "hist_container": cont})
     impl = run_impl(cases, timeout=3000)
     lines, meta = [], []
     for ci, (c, r) in enumerate(zip(cases, impl)):
